@@ -95,6 +95,42 @@ def random_scene(rnd, mode):
             'opts': rnd.randint(0, 127), 'shapes': shapes, 'conns': conns}
 
 
+def butted_row(rnd):
+    bx0 = 2 * rnd.randint(5, 8); bx1 = bx0 + 2 * rnd.randint(1, 4)
+    by0 = 2 * rnd.randint(1, 3); by1 = by0 + 2 * rnd.randint(6, 10)
+    def side(left):
+        h = 2 * rnd.randint(1, 3)
+        y0 = rnd.choice(range(by0 + 2, by1 - h - 1, 2))           # strictly inside B's side
+        w = 2 * rnd.randint(1, 3)
+        return (bx0 - w, y0, bx0, y0 + h) if left else (bx1, y0, bx1 + w, y0 + h)
+    boxes = [side(True), (bx0, by0, bx1, by1), side(False)]
+    if rnd.random() < 0.3:                                        # sometimes a second shape butted on one side
+        extra = side(rnd.random() < 0.5)
+        if all(extra[2] <= o[0] or o[2] <= extra[0] or extra[3] <= o[1] or o[3] <= extra[1] for o in boxes):
+            boxes.append(extra)
+    col = rnd.random() < 0.5                                      # column instead of row
+    if col:
+        boxes = [(b[1], b[0], b[3], b[2]) for b in boxes]
+    boxes_mid = (bx0, bx1)
+    rnd.shuffle(boxes)
+    shapes = [RC.rect_poly(b) for b in boxes]
+    pts = [(x, y) for x in range(1, 34, 2) for y in range(1, 34, 2) if all(not (o[0] <= x <= o[2] and o[1] <= y <= o[3]) for o in boxes)]
+    conns = []
+    mid = boxes_mid
+    for q in range(6):
+        a, b = rnd.sample(pts, 2)
+        if q < 4:           # across the middle shape: one end on either side of it
+            lo = [p for p in pts if (p[1] if col else p[0]) < mid[0]]
+            hi = [p for p in pts if (p[1] if col else p[0]) > mid[1]]
+            if lo and hi:
+                a, b = rnd.choice(lo), rnd.choice(hi)
+                if rnd.random() < 0.5:
+                    a, b = b, a
+        conns.append((a[0], a[1], 15, b[0], b[1], 15))
+    md = rnd.choice([0, 0, 0, 1])
+    return {'mode': md, 'P': 10 if md else rnd.choice([0, 0, 10]), 'buf': 0, 'opts': rnd.randint(0, 31) & ~1, 'shapes': shapes, 'conns': conns}
+
+
 def main(tier):
     ev = V.Evidence(PID, tier)
     vd = V.Verdict(PID, ev)
@@ -139,6 +175,10 @@ def main(tier):
             conns.append((a[0], a[1], 15, b[0], b[1], 15))
         md = rnd.choice([0, 0, 0, 1])
         scenes.append({'mode': md, 'P': 10 if md else rnd.choice([0, 10]), 'buf': 0, 'opts': rnd.randint(0, 31) & ~1, 'shapes': shapes, 'conns': conns})
+    # a row A | B | C of butted rectangles: corners of the outer two lie in the interior of opposite sides of the middle one
+    # (vertices on another shape's edge on both sides of one shape), every insertion order, both orientations
+    for _ in range(150 if quick else 3000):
+        scenes.append(butted_row(rnd))
     nenum = len(scenes)
     for _ in range(300 if quick else 8000):
         scenes.append(random_scene(rnd, rnd.randint(0, 1)))
